@@ -470,7 +470,7 @@ class NaNMarker:
     def _p(self, *a):
         return self
     __add__ = __radd__ = __sub__ = __rsub__ = __mul__ = __rmul__ = __truediv__ = __rtruediv__ = __pow__ = __rpow__ = _p
-    __neg__ = __pos__ = __abs__ = conjugate = sqrt = exp = log = _p
+    __neg__ = __pos__ = __abs__ = conjugate = sqrt = exp = log = arccos = arcsin = sin = cos = _p
 
     def _c(self, o):
         return False
